@@ -58,10 +58,10 @@ def relayout(rng, a):
         return np.ascontiguousarray(a.T).T, kind
     if kind == "strided":
         if a.ndim == 1:
-            buf = np.full(2 * a.shape[0], -77, dtype=a.dtype)
+            buf = np.full(2 * a.shape[0], -77 if a.dtype.kind == "i" else 1, dtype=a.dtype)
             buf[::2] = a
             return buf[::2], kind
-        buf = np.full((a.shape[0], 2 * a.shape[1]), -77, dtype=a.dtype)
+        buf = np.full((a.shape[0], 2 * a.shape[1]), -77 if a.dtype.kind == "i" else 1, dtype=a.dtype)
         buf[:, ::2] = a
         return buf[:, ::2], kind
     if kind == "reversed":
@@ -72,9 +72,16 @@ def relayout(rng, a):
 def one(ctx, a, common, use_counts, mk, reqs, pend, force_no_model=False):
     from catii import iindex
     a_values = a
+    if a.size and a.dtype == np.int64 and ctx.rng.random() < 0.35:
+        # the same values stored as bool / (u)int8..64: callers rarely hold int64
+        a, storage = I.storage_variant(ctx.rng, a)
+    else:
+        storage = str(a.dtype)
+    ctx.hit("storage:" + storage)
     a, layout = relayout(ctx.rng, a)
-    assert np.array_equal(a, a_values)
+    assert np.array_equal(a.astype(np.int64) if a.dtype != np.uint64 else a, a_values)
     ctx.hit("layout:" + layout)
+    stored, a = a, a_values          # `stored` goes to the library; mappings, counts, expectations are built from the values
     mapping = build_mapping(ctx.rng, a, common, mk)
     counts = None
     if use_counts:
@@ -115,7 +122,7 @@ def one(ctx, a, common, use_counts, mk, reqs, pend, force_no_model=False):
     ctx.hit("counts:" + ("supplied" if use_counts else "omitted"))
     ctx.hit("mapping:" + mk)
     try:
-        ix = iindex.from_array(a, **kw)
+        ix = iindex.from_array(stored, **kw)
     except Exception as e:
         ctx.case(desc)
         ctx.oracle_fail("from_array raised %s: %s" % (type(e).__name__, str(e)[:100]), desc, cls="C01-from-array-raises")
@@ -163,7 +170,7 @@ def one(ctx, a, common, use_counts, mk, reqs, pend, force_no_model=False):
                 kw2["common"] = c2
             ctx.hit("same_option_objects_reused")
             try:
-                out2 = iindex.from_array(a, **kw2).to_array(dtype=np.int64)
+                out2 = iindex.from_array(stored, **kw2).to_array(dtype=np.int64)
             except Exception as e:
                 if a.size == 0:
                     continue
